@@ -21,7 +21,7 @@ from pathlib import Path
 from . import asm, tlc
 from .common import CACHE, SPECS, ToolError, build_wild, log, sh
 
-SCN_KEYS = ("fork", "multi", "prior", "shared", "wopt", "mmapOut", "holder", "faultAt", "faultKind", "reapable", "changeAt")
+SCN_KEYS = ("fork", "multi", "prior", "shared", "wopt", "mmapOut", "holder", "faultAt", "faultKind", "symlink", "reapable", "changeAt")
 PHASES = ["start", "loaded", "symbols", "resolved", "laid_out", "pre_write", "mid_write", "flushed",
           "unmapped", "written", "verified", "finished", "pre_inform", "post_inform", "end"]
 
@@ -206,10 +206,18 @@ def run_scenario(ws, scn, d, tokens=None, measure_threads=False, trace=False, yi
     other = d / (out.name + ".tmp")
     other.write_bytes(b"another neighbour\n")
     prior_bytes = prior_ino = None
+    link_target = None
     if scn["prior"] == "file":
         src = ws.prior_so if scn["shared"] else ws.prior_exe
-        shutil.copy(src, out)
-        os.chmod(out, 0o755)
+        if scn.get("symlink"):
+            # libout.so -> libout.so.1 : the output path is a symbolic link to the previous output
+            link_target = d / (out.name + ".1")
+            shutil.copy(src, link_target)
+            os.chmod(link_target, 0o755)
+            os.symlink(link_target.name, out)
+        else:
+            shutil.copy(src, out)
+            os.chmod(out, 0o755)
         prior_bytes = out.read_bytes()
         prior_ino = os.stat(out).st_ino
     # private copies of the inputs so that C20 can modify them
@@ -249,7 +257,16 @@ def run_scenario(ws, scn, d, tokens=None, measure_threads=False, trace=False, yi
     holder_proc = None
     holder_sum0 = None
     if scn["holder"] == "exec":
-        holder_proc = subprocess.Popen([str(out)], stdin=subprocess.DEVNULL, stdout=subprocess.DEVNULL)
+        for attempt in range(50):
+            try:
+                holder_proc = subprocess.Popen([str(out)], stdin=subprocess.DEVNULL, stdout=subprocess.DEVNULL)
+                break
+            except OSError as e:
+                # ETXTBSY: a child forked by another harness thread still holds the write descriptor
+                # we copied the file with (until it execs); harness-side race, just retry
+                if e.errno != 26 or attempt == 49:
+                    raise
+                time.sleep(0.02)
         time.sleep(0.02)
         holder_sum0 = hashlib.sha256(open(f"/proc/{holder_proc.pid}/exe", "rb").read()).hexdigest()
     elif scn["holder"] == "map":
@@ -334,6 +351,7 @@ def run_scenario(ws, scn, d, tokens=None, measure_threads=False, trace=False, yi
         "touched": sorted(touched),
         "tokens_left": tokens_left, "nthreads": nthreads,
         "holder_unchanged": (holder_sum0 == holder_sum1) if holder_proc is not None else None,
+        "link_target_unchanged": (link_target.exists() and link_target.read_bytes() == prior_bytes) if link_target is not None else None,
         "stderr": se.decode("utf-8", "replace")[-600:], "args": args,
         "env": {k: v for k, v in env.items() if k.startswith("WILD_") or k == "MAKEFLAGS"},
         "modified": modified, "wall": time.time() - t0,
